@@ -3,6 +3,7 @@ CONSTANTS
   Component = "mixedx"
   Precisions = {1, 4, 8, 12}
   NMixed = 300
+  NShards = 16
   DEV_XmlDropsHorn = FALSE
   DEV_ReaderStopsAtFirstUnset = FALSE
 INVARIANT LawIdempotent
